@@ -262,7 +262,7 @@ def ehRun (all : Bool) (probes : List Str) (env : EH.Env) (ops : List String) : 
       | ["envdel", k] => do
         let k ← pAtom k
         pure (PyDict.erase env k, "~")
-      | ["m", name] => pure (env, if name == "clear" then "~" else oExc "TypeError")
+      | ["m", _] => pure (env, oExc "TypeError")
       | _ => none : Option (EH.Env × String))
     let here := if all || t.isEmpty then here ++ "#" ++ ehDump probes env' else here
     let rest ← ehRun all probes env' t
